@@ -74,6 +74,8 @@ pub trait Group:
     fn undecodable(rng: &mut SimRng) -> [u8; 32];
     fn scale(p: &Self, s: &Scalar) -> Self;
     fn sum(a: &Self, b: &Self) -> Self;
+    /// bytes of a compressed handle
+    fn c_bytes(c: &<Self as Compressable>::Compressed) -> [u8; 32];
 }
 
 impl Group for RistrettoPoint {
@@ -156,6 +158,10 @@ impl Group for RistrettoPoint {
 
     fn sum(a: &Self, b: &Self) -> Self {
         a + b
+    }
+
+    fn c_bytes(c: &<Self as Compressable>::Compressed) -> [u8; 32] {
+        *c.as_fixed_bytes()
     }
 }
 
@@ -253,5 +259,9 @@ impl Group for FreePoint {
 
     fn sum(a: &Self, b: &Self) -> Self {
         a + b
+    }
+
+    fn c_bytes(c: &<Self as Compressable>::Compressed) -> [u8; 32] {
+        *c.as_fixed_bytes()
     }
 }
